@@ -1007,6 +1007,13 @@ func (h *harness) scenario(n int, rng *rand.Rand) {
 			h.count("equivalent-request-misses")
 		}
 	}
+	if bigIdx >= 0 { // plain re-read of a planned big reply (no seen-block / shared-state variation)
+		o := opt()
+		o.Seen, o.Shared = 0, ""
+		if res := h.get(base, o, "plain re-read of a big reply"); res.st == st {
+			present = true
+		}
+	}
 	// 2. one-field-different requests — must never be answered with this entry
 	k := 3 + rng.Intn(4)
 	perm := rng.Perm(len(mutFields))
